@@ -144,6 +144,10 @@ def hook(w, job, part):
                 ti = w.c('C_GetTokenInfo', slot=tt.slot); got = bytes.fromhex(ti.get('label', '')).rstrip(b' ')
                 if ti['rv'] != 0 or got != tt.label: w.F('C14', 'C_InitToken|re-init|label-not-applied', 'after re-initialisation C_GetTokenInfo does not show the new label', got=got, want=tt.label)
                 if ti['rv'] == 0 and (ti['flags'] & ck.CKF_USER_PIN_INITIALIZED): w.F('C14', 'C_InitToken|re-init|user-pin-flag-still-set', 'CKF_USER_PIN_INITIALIZED survives a re-initialisation')
+                # "removes its user PIN": nothing of the removed PIN's state survives either -- the count-low / final-try / locked / to-be-changed bits of the USER PIN are those of a token that never had one
+                UBITS = ck.CKF_USER_PIN_COUNT_LOW | ck.CKF_USER_PIN_FINAL_TRY | ck.CKF_USER_PIN_LOCKED
+                if ti['rv'] == 0 and (ti['flags'] & UBITS): w.F('C14', 'C_InitToken|re-init|user-pin-state-flags-survive', 'after a re-initialisation (the user PIN is gone) C_GetTokenInfo still reports state bits of the removed user PIN', flags=hex(ti['flags'] & UBITS))
+                w.cov('C14', ('reinit-user-pin-state-flags', bool(getattr(tt, 'wrong_user_login_seen', False))))
                 if u0 is not None:
                     r = w.c('C_OpenSession', slot=tt.slot)
                     if r['rv'] == 0:
@@ -358,11 +362,66 @@ def reconfigured_tokendir(ctx, backend):
     except Hang: ctx.inconc(f'hang in the reconfigured-tokendir scenario ({backend})')
     finally: x.kill() if x.p.poll() is None else None
 
+def reinit_after_wrong_user_login(ctx, backend):
+    """directed: a failed user login leaves CKF_USER_PIN_COUNT_LOW (positive control); all sessions are closed; the token is re-initialised with the right SO PIN: the user PIN is gone and so is
+    every state bit of it, at once, after C_Finalize / C_Initialize and in a new process"""
+    ck = ctx.ck; d = ctx.dir('c14w'); x = ctx.new_exec('asan', d, backend); SO, U = b'so-pin-14w', b'user-pin-14w'; UBITS = ck.CKF_USER_PIN_COUNT_LOW | ck.CKF_USER_PIN_FINAL_TRY | ck.CKF_USER_PIN_LOCKED | ck.CKF_USER_PIN_INITIALIZED
+    try:
+        assert x.call('C_Initialize', locking='os')['rv'] == 0; slot = x.call('C_GetSlotList', count=8)['slots'][-1]
+        assert x.call('C_InitToken', slot=slot, pin=SO.hex(), label=b'w1'.hex())['rv'] == 0; s = x.call('C_OpenSession', slot=slot)['h']
+        assert x.call('C_Login', s=s, user=0, pin=SO.hex())['rv'] == 0 and x.call('C_InitPIN', s=s, pin=U.hex())['rv'] == 0 and x.call('C_Logout', s=s)['rv'] == 0
+        assert x.call('C_Login', s=s, user=1, pin=b'not-the-user-pin'.hex())['rv'] != 0; f0 = x.call('C_GetTokenInfo', slot=slot)['flags']
+        x.call('C_CloseAllSessions', slot=slot); assert x.call('C_InitToken', slot=slot, pin=SO.hex(), label=b'w2'.hex())['rv'] == 0
+        seen = [('at-once', x.call('C_GetTokenInfo', slot=slot)['flags'])]
+        x.call('C_Finalize'); assert x.call('C_Initialize', locking='os')['rv'] == 0
+        sl = [q for q in x.call('C_GetSlotList', count=8)['slots'] if x.call('C_GetTokenInfo', slot=q)['flags'] & ck.CKF_TOKEN_INITIALIZED][0]; seen.append(('after-re-initialisation-of-the-library', x.call('C_GetTokenInfo', slot=sl)['flags']))
+        x.call('C_Finalize'); x.close(); x = ctx.new_exec('asan', d, backend, reuse_dir=True); assert x.call('C_Initialize', locking='os')['rv'] == 0
+        sl = [q for q in x.call('C_GetSlotList', count=8)['slots'] if x.call('C_GetTokenInfo', slot=q)['flags'] & ck.CKF_TOKEN_INITIALIZED][0]; seen.append(('new-process', x.call('C_GetTokenInfo', slot=sl)['flags']))
+        for when, fl in seen:
+            if fl & UBITS: ctx.violation(f'C_InitToken|re-init-after-failed-user-login,{backend}|user-pin-state-flags-survive({when})', 'a re-initialisation removed the user PIN, but C_GetTokenInfo still reports state bits of it', {'backend': backend, 'when': when, 'flags': hex(fl), 'surviving': hex(fl & UBITS), 'flags_before_reinit': hex(f0)})
+        ctx.case(('reinit-after-wrong-user-login', backend), nontrivial=bool(f0 & ck.CKF_USER_PIN_COUNT_LOW), sample={'reinit_after_wrong_user_login': {'backend': backend, 'flags_before': hex(f0), 'after': [(w_, hex(f)) for w_, f in seen]}}); x.call('C_Finalize')
+    except AssertionError as e: ctx.inconc(f'reinit-after-wrong-user-login could not run ({backend}): {e!r}')
+    except Died as e: ctx.observe('side:C17 library terminated the host', {'kind': e.kind(), 'fn': e.fn}); ctx.inconc(f'executor died in reinit-after-wrong-user-login ({backend})')
+    except Hang: ctx.inconc(f'hang in reinit-after-wrong-user-login ({backend})')
+    finally: x.kill() if x.p.poll() is None else None
+
+def inittoken_rng_faults(ctx, backend):
+    """C_InitToken on the free slot with the k-th request to the random number generator failing (every k): a call that returns CKR_OK has created a token with THE GIVEN SO PIN
+    (it logs in, a wrong one does not, a re-initialisation with a wrong SO PIN is refused); a call that fails has created nothing that a restart would find"""
+    ck = ctx.ck; SO = b'so-pin-14g'
+    def one(k):
+        d = ctx.dir('c14g'); x = ctx.new_exec('asan', d, backend)
+        try:
+            assert x.call('C_Initialize', locking='os')['rv'] == 0; x.call('C_GetSlotList', null=True); free = x.call('C_GetSlotList', count=8)['slots'][-1]
+            x.call('rng', mode='fail', k=k) if k else x.call('rng', mode='count')
+            r = x.call('C_InitToken', slot=free, pin=SO.hex(), label=b'rng-token'.hex()); st = x.call('rng', mode='status'); x.call('rng', mode='off')
+            w = dict(backend=backend, k=k, rv=r['rvname']); ctx.case(('inittoken-rng-fault', backend, k, r['rv'] == 0), nontrivial=bool(k == 0 or st.get('injected')))
+            x.call('C_Finalize'); assert x.call('C_Initialize', locking='os')['rv'] == 0; cen = token_census(x, ck)
+            if r['rv'] != 0:
+                if cen: ctx.violation(f'C_InitToken|{backend},rng-fault,failed|tokens-after-restart-differ', 'a C_InitToken that FAILED because a random-number request failed left something that a re-initialised library shows as a token', dict(w, found=cen))
+            else:
+                sl = [q for q in x.call('C_GetSlotList', count=8)['slots'] if x.call('C_GetTokenInfo', slot=q).get('flags', 0) & ck.CKF_TOKEN_INITIALIZED]
+                if len(sl) != 1: ctx.violation(f'C_InitToken|{backend},rng-fault,ok|token-not-found-after-restart', 'C_InitToken returned CKR_OK (a random-number request had failed) but the token is not there after a re-initialisation', dict(w, found=cen))
+                else:
+                    s_ = x.call('C_OpenSession', slot=sl[0])['h']; good = x.call('C_Login', s=s_, user=0, pin=SO.hex())['rvname']; x.call('C_Logout', s=s_); bad = x.call('C_Login', s=s_, user=0, pin=b'another-so-pin'.hex())['rvname']; x.call('C_Logout', s=s_); x.call('C_CloseSession', s=s_)
+                    ri = x.call('C_InitToken', slot=sl[0], pin=b'another-so-pin'.hex(), label=b'taken-over'.hex())['rvname']
+                    if good != 'CKR_OK' or bad == 'CKR_OK' or ri == 'CKR_OK':
+                        ctx.violation(f'C_InitToken|{backend},rng-fault,ok|so-pin-not-the-given-one', 'C_InitToken returned CKR_OK although a random-number request failed, and the token does not carry the SO PIN it was given (the right PIN is refused, or a wrong one logs in / re-initialises the token)', dict(w, login_right_pin=good, login_wrong_pin=bad, reinit_wrong_pin=ri))
+            x.call('C_Finalize'); return st.get('calls', 0)
+        finally: x.kill() if x.p.poll() is None else None
+    try:
+        N = one(0); ctx.observe('random-number requests of a fresh C_InitToken', {'backend': backend, 'n': N})
+        for k in range(1, min(N, 40) + 1):
+            try: one(k)
+            except Died as e: ctx.observe('the library terminated the host process (exit(5) from the exception barrier) when a random-number request failed inside C_InitToken: an environment fault, outside the quantifiers of C14 and C17; recorded, not judged', {'kind': e.kind(), 'fn': e.fn, 'k': k, 'backend': backend}); ctx.count('inittoken_rng_faults_that_killed_the_host') if hasattr(ctx, 'count') else None
+    except AssertionError as e: ctx.inconc(f'C_InitToken RNG-fault lane could not run ({backend}): {e!r}')
+    except Hang: ctx.inconc(f'hang in the C_InitToken RNG-fault lane ({backend})')
+
 def run(ctx):
     ctx.need('asan')
     for be in ('file', 'db'): reinit_two_process(ctx, be)
     for be in ('file', 'db'): noninterference(ctx, be)
-    for be in ('file', 'db'): inittoken_faults(ctx, be); inittoken_races(ctx, be); reconfigured_tokendir(ctx, be)
+    for be in ('file', 'db'): inittoken_faults(ctx, be); inittoken_races(ctx, be); reconfigured_tokendir(ctx, be); reinit_after_wrong_user_login(ctx, be); inittoken_rng_faults(ctx, be)
     ctx.rule = ('histories over 2-4 tokens: C_InitToken (fresh on the free slot / re-init, right / wrong SO PIN, with / without sessions), softhsm2-util --init-token / --delete-token of the same build as another actor, '
                 'object and PIN operations, C_Finalize/C_Initialize and new-process restarts (40 % of them after stray non-token entries were put into the token directory); after every call every OTHER token is probed (session states, visible object set, an attribute) against the model, '
                 'after every restart every token must be found again under slot = last 8 hex digits of the serial & 0x7fffffff with label/flags unchanged, and quiescent audits log in with both PINs and compare all objects; '
